@@ -721,8 +721,11 @@ func (s *scanner) readInlineImage() (Operator, error) {
 	if class[b] == space {
 		s.ReadByte()
 	}
-	if isASCIIFilter(filter) {
-		if err := s.SkipWhiteSpace(); err != nil {
+	if isASCIIFilter(filter) && length <= 0 {
+		// Only white space is skipped: "%" is an ASCII85 digit here, not the
+		// start of a comment.  If the length is known, the data starts right
+		// after the single white-space character.
+		if err := s.skipWhiteSpaceExceptComments(); err != nil {
 			return Operator{}, err
 		}
 	}
